@@ -18,7 +18,7 @@ import sys
 
 sys.path.insert(0, '/verif')
 
-from vb import check, paneldraws, par, rt, tlc
+from vb import check, exprreplay, flagship, paneldraws, par, rt, tlc
 
 PID = 'C09'
 
@@ -47,6 +47,25 @@ def body(chk: check.Check):
         for m in val['mismatches']:
             chk.violation('replay:' + m['what'][:50], dict(dict(ids=rec['ids'], xs=rec['xs'], R=rec['R'], formula=rec['formula']), **{('perm_' + k if k in ('ids', 'xs') else k): v for k, v in m.items()}), match=dict(kind='value'))
     chk.extra['non_contiguous_sequences_refused'] = sum(1 for r in recs if not r['contiguous'])
+    # mixed-logit formulas on panel data (ExprLang with the trajectory and Monte-Carlo operators as inner nodes):
+    # proposed from outside, accepted and valued by the specification, one value per INDIVIDUAL
+    fpool = flagship.pool_panel()
+    props = flagship.proposals(chk.seed + 9, 20 if quick else 120, True)
+    fres = tlc.run('MCExprGen', fpool.cfg(0, ['EmitInv']), extra_modules={'MCExprGen': fpool.module(start=props)}, workers='auto', timeout=1800)
+    chk.add_tlc(f'ExprLang: {len(props)} proposed mixed-logit formulas on panel data', fres)
+    if len(fres.emitted) < len(props) // 2:
+        raise tlc.MachineryError(f'only {len(fres.emitted)} of {len(props)} proposed formulas were accepted by the specification')
+    exprreplay.init(fpool)
+    for rec, (st, val) in zip(fres.emitted, par.pmap(exprreplay.replay_values, fres.emitted, chunk=2, timeout=900)):
+        desc = exprreplay.describe(rec)
+        chk.replayed += 1
+        if st != 'ok':
+            chk.violation(f'mixed:{st}', dict(formula=desc, error=val), match=dict(kind='exception'))
+            continue
+        chk.count(('mixed', desc), val['n'])
+        for m in val['mismatches']:
+            chk.violation('mixed:value per individual', {**dict(formula=desc), **m}, match=dict(kind='value'))
+    chk.extra['mixed_logit_formulas_on_panel_data'] = len(fres.emitted)
     # negative controls
     import copy
 
